@@ -7,3 +7,5 @@ git -C /repo show $sha | git -C /repo apply -R || { echo "cannot revert"; exit 2
 echo "== reverted: $(git -C /repo log --format=%s -1 $sha)"
 for p in "$@"; do (cd /verif && ./check $p | tail -3); done
 git -C /repo checkout -- .
+# the runs above rewrote evidence/ from a MODIFIED tree: put the committed (clean-tree) evidence back
+git -C /verif checkout -- evidence
